@@ -671,6 +671,6 @@ def r9(idx, rep):
         if fi.name == "_produce_value":
             continue  # an override delegating to its parent
         n += 1
-        rep.check(fi.qual == "Function.to_value", "R9", f"{fi.file}::{fi.qual} calls _produce_value",
+        rep.check(K.owner_of(idx, fi, {"Function.to_value"}) is not None, "R9", f"{fi.file}::{fi.qual} calls _produce_value",
                   "only the caching Function.to_value may call _produce_value; a direct call produces the value (and its side effects) a second time on lines where it was already produced", K.where(fi, s["call"]))
     rep.floor("R9", 1, "_produce_value call sites")
